@@ -122,6 +122,10 @@ def run(ctx):
            timeout=tmo, confirm='confirm_depth3',
            desc='depth 3: middleware lists of the three levels x prefixes x inherit/rebind flags of both embedding steps x 6 resource placements (a name defined only by two inner levels is excluded)'),
     ]
+    obs.append(Ob('reembedded', 'ob_reembedded', '', packed=[('prefix_i', 5), ('b', 7), ('rebind', 2, 'bool'), ('nofactory', 2, 'bool'), ('res1', 3)],
+                  cells=[('prefix%d' % p, [{'prefix_i': p}]) for p in range(5)], timeout=tmo, confirm='confirm_reembedded',
+                  desc='depth 2 and 3 where the innermost application had ALREADY been embedded in an unrelated application (own factory, resources, middlewares, error handler), and trees in which no level '
+                       'has a render factory: still identical to the flat declaration'))
     res.merge(run_obligations('C10', 'harness.c10', obs, ctx.tier))
     res.engines.append('E4 z3 Re equivalence of embedded vs flat route regexes')
     res.functions_encoded += ['SubApplication.__init__/bind_all', 'BoundRoute.__init__ (prefix, slash mode, resources, merge, render/render_error re-binding)', 'Application.add', '_compile_path_pattern (regex of the prefixed pattern)',
